@@ -10,8 +10,9 @@
      object's (hard link of a non-empty object, symbolic link): os.chmod through such a path
      reaches every other path sharing the object - this is what makes a non-executable entry
      executable under link types hardlink/symlink (DESIGN C09, Oracle note).
-     [Dangling] = a broken symbolic link in the prior workspace; build() + md5() drop it from the
-     old index (since 41e56e8 checkout itself no longer creates one).
+     [Dangling] = a broken symbolic link in the prior workspace (e.g. a symlink checkout whose cache
+     object was collected since); build_entries lists it as an entry without meta and hash
+     (since 41e56e8 checkout itself no longer creates one).
    * target     = finite map key |-> TFile exec (content of the object its hash names | no hash)
                                     | TDir (hash?) lazy
      plus [trees]: the directory objects that can be loaded (listing relkey |-> content) and
@@ -112,12 +113,13 @@ Definition mk_m (isdir isexec : bool) : meta :=
   mk_meta isdir None None isexec None None None None None None None false None 0.
 Definition hi_of (v : list N) : hashinfo := mk_hashinfo (Some md5_name) (Some v) None.
 
-(* build() + md5() of the workspace: files hashed, directories with the x bit, broken links dropped *)
+(* build_entries(compute_hash=True) of the workspace: files hashed, directories with the x bit, a broken
+   link as `DataIndexEntry(key=key)` - no meta, no hash (index/build.py, the `name in broken` branch) *)
 Definition old_entry (k : key) (n : node) : option ientry :=
   match n with
   | File b x _ => Some (mk_ientry (Some k) (Some (mk_m false x)) (Some (hi_of (oid_of b))) None)
   | Dir => Some (mk_ientry (Some k) (Some (mk_m true true)) None (Some true))
-  | Dangling => None
+  | Dangling => Some (mk_ientry (Some k) None None None)
   end.
 Definition new_entry (k : key) (t : tentry) : ientry :=
   match t with
@@ -322,22 +324,45 @@ Fixpoint chmod_files (l : list key) (w : ws) : ws * bool :=
 Definition reorder (order l : list key) : list key :=
   filter (fun k => mem_key k l) order ++ filter (fun k => negb (mem_key k order)) l.
 
-Record out := { o_ws : ws; o_errs : errs; o_raised : bool }.
+(* _create_dirs: os.makedirs(exist_ok=True) per entry, no try/except - a file or a broken link on the way
+   raises FileExistsError / NotADirectoryError out of apply *)
+Definition blocked (w : ws) (k : key) : bool :=
+  existsb (fun p => match lookup w p with Some Dir | None => false | Some _ => true end) (prefixes k).
+Fixpoint mk_until (ps : list key) (w : ws) : ws :=
+  match ps with
+  | [] => w
+  | p :: r => match lookup w p with
+              | None => mk_until r (set p Dir w)
+              | Some Dir => mk_until r w
+              | Some _ => w
+              end
+  end.
+Fixpoint create_dirs (l : list key) (w : ws) : ws * bool :=
+  match l with
+  | [] => (w, false)
+  | k :: r => if blocked w k then (mk_until (prefixes k) w, true) else create_dirs r (makedirs k w)
+  end.
 
-(* apply(): dirs_failed -> onerror; delete files; delete dirs; create dirs; create files; chmod *)
-Definition apply (lt : link) (avail : list bytes) (order : list key) (p : list action * list key) (w : ws) : out :=
+Record out := { o_ws : ws; o_errs : errs; o_raised : bool; o_dirs_raised : bool }.
+
+(* apply(): dirs_failed -> onerror; delete files; delete dirs; create dirs; create files; chmod.
+   [order], [order_dc]: the observed orders of diff.files_chmod / diff.dirs_create (they matter only when
+   the phase aborts) *)
+Definition apply (lt : link) (avail : list bytes) (order order_dc : list key) (p : list action * list key) (w : ws) : out :=
   let acts := fst p in
   let e0 := map (fun k => (k, 1)) (snd p) in
   let w1 := fold_left (fun w k => rm k w) (files_delete acts) w in
   let w2 := fold_left (fun w k => rmdir k w) (sort_desc (dirs_delete acts)) w1 in
-  let w3 := fold_left (fun w k => makedirs k w) (dirs_create acts) w2 in
-  let '(w4, e4) := create_files lt avail (files_create acts) w3 in
-  let '(w5, raised) := chmod_files (reorder order (files_chmod acts)) w4 in
-  {| o_ws := w5; o_errs := e0 ++ e4; o_raised := raised |}.
+  let '(w3, r3) := create_dirs (reorder order_dc (dirs_create acts)) w2 in
+  if r3 then {| o_ws := w3; o_errs := e0; o_raised := true; o_dirs_raised := true |}
+  else
+    let '(w4, e4) := create_files lt avail (files_create acts) w3 in
+    let '(w5, raised) := chmod_files (reorder order (files_chmod acts)) w4 in
+    {| o_ws := w5; o_errs := e0 ++ e4; o_raised := raised; o_dirs_raised := false |}.
 
-Definition checkout (lt : link) (delete : bool) (avail : list bytes) (tr : trees) (order : list key)
+Definition checkout (lt : link) (delete : bool) (avail : list bytes) (tr : trees) (order order_dc : list key)
            (w : ws) (t : target) : out :=
-  apply lt avail order (compare false delete w tr t) w.
+  apply lt avail order order_dc (compare false delete w tr t) w.
 
 (* the file system a target describes: its files with their bytes, its directories *)
 Definition fs_node (te : tentry) : option node :=
@@ -364,13 +389,13 @@ Definition enc_ws (w : ws) : val := VL (map VB (sort_bytes (map flat_node w))).
 Definition enc_errs (e : errs) : val := VL (map VB (sort_bytes (map (fun kc => snd kc :: flat_key (fst kc)) e))).
 
 Record case := {
-  c_link : link; c_delete : bool; c_avail : list bytes; c_trees : trees; c_order : list key;
+  c_link : link; c_delete : bool; c_avail : list bytes; c_trees : trees; c_order : list key; c_order_dc : list key;
   c_ws : ws; c_target : target }.
 
 (* first compare, apply, second compare on the resulting workspace *)
 Definition run_case (c : case) : val :=
   let p1 := compare false (c_delete c) (c_ws c) (c_trees c) (c_target c) in
-  let o := apply (c_link c) (c_avail c) (c_order c) p1 (c_ws c) in
+  let o := apply (c_link c) (c_avail c) (c_order c) (c_order_dc c) p1 (c_ws c) in
   let p2 := compare false (c_delete c) (o_ws o) (c_trees c) (c_target c) in
   VL [enc_plan p1; enc_ws (o_ws o); enc_errs (o_errs o); enc_bool (o_raised o); enc_plan p2].
 
